@@ -61,7 +61,35 @@ Rules ==
      [r |-> "handler-signature", ss |-> <<Raw(<<"on down x:string y:num">>), Raw(<<"    print x y">>), Raw(<<"end">>)>>, sites |-> {"top0", "top1"}],
      [r |-> "duplicate-function", ss |-> <<Raw(<<"func proc">>), Raw(<<"    print 1">>), Raw(<<"end">>)>>, sites |-> {"top0", "top1"}],
      [r |-> "missing-return", ss |-> <<Raw(<<"func mr:num">>), Raw(<<"    print 1">>), Raw(<<"end">>)>>, sites |-> {"top0", "top1"}],
-     [r |-> "missing-return-branch", ss |-> <<Raw(<<"func mr:num">>), Raw(<<"    if true">>), Raw(<<"        return 1">>), Raw(<<"    end">>), Raw(<<"end">>)>>, sites |-> {"top0", "top1"}] >>
+     [r |-> "missing-return-branch", ss |-> <<Raw(<<"func mr:num">>), Raw(<<"    if true">>), Raw(<<"        return 1">>), Raw(<<"    end">>), Raw(<<"end">>)>>, sites |-> {"top0", "top1"}],
+     [r |-> "missing-return-chain-1", ss |-> <<Raw(<<"func mr:num n:num">>), Raw(<<"    if n > 2">>), Raw(<<"        print 0">>), Raw(<<"    else if n == 2">>), Raw(<<"        return 2">>), Raw(<<"    else if n == 1">>), Raw(<<"        return 3">>), Raw(<<"    else">>), Raw(<<"        return 4">>), Raw(<<"    end">>), Raw(<<"end">>), Raw(<<"print (mr 3) (mr 2) (mr 1) (mr 0)">>)>>, sites |-> {"top0", "top1"}],
+     [r |-> "missing-return-chain-2", ss |-> <<Raw(<<"func mr:num n:num">>), Raw(<<"    if n > 2">>), Raw(<<"        return 1">>), Raw(<<"    else if n == 2">>), Raw(<<"        print 0">>), Raw(<<"    else if n == 1">>), Raw(<<"        return 3">>), Raw(<<"    else">>), Raw(<<"        return 4">>), Raw(<<"    end">>), Raw(<<"end">>), Raw(<<"print (mr 3) (mr 2) (mr 1) (mr 0)">>)>>, sites |-> {"top0", "top1"}],
+     [r |-> "missing-return-chain-3", ss |-> <<Raw(<<"func mr:num n:num">>), Raw(<<"    if n > 2">>), Raw(<<"        return 1">>), Raw(<<"    else if n == 2">>), Raw(<<"        return 2">>), Raw(<<"    else if n == 1">>), Raw(<<"        print 0">>), Raw(<<"    else">>), Raw(<<"        return 4">>), Raw(<<"    end">>), Raw(<<"end">>), Raw(<<"print (mr 3) (mr 2) (mr 1) (mr 0)">>)>>, sites |-> {"top0", "top1"}],
+     [r |-> "missing-return-chain-4", ss |-> <<Raw(<<"func mr:num n:num">>), Raw(<<"    if n > 2">>), Raw(<<"        return 1">>), Raw(<<"    else if n == 2">>), Raw(<<"        return 2">>), Raw(<<"    else if n == 1">>), Raw(<<"        return 3">>), Raw(<<"    else">>), Raw(<<"        print 0">>), Raw(<<"    end">>), Raw(<<"end">>), Raw(<<"print (mr 3) (mr 2) (mr 1) (mr 0)">>)>>, sites |-> {"top0", "top1"}],
+     [r |-> "missing-return-chain-no-else", ss |-> <<Raw(<<"func mr:num n:num">>), Raw(<<"    if n > 2">>), Raw(<<"        return 1">>), Raw(<<"    else if n == 2">>), Raw(<<"        return 2">>), Raw(<<"    else if n == 1">>), Raw(<<"        return 3">>), Raw(<<"    end">>), Raw(<<"end">>), Raw(<<"print (mr 3) (mr 2) (mr 1) (mr 0)">>)>>, sites |-> {"top0", "top1"}],
+     [r |-> "missing-return-while", ss |-> <<Raw(<<"func mr:num n:num">>), Raw(<<"    while n > 0">>), Raw(<<"        return 1">>), Raw(<<"    end">>), Raw(<<"end">>), Raw(<<"print (mr 1) (mr 0)">>)>>, sites |-> {"top0", "top1"}],
+     [r |-> "missing-return-for", ss |-> <<Raw(<<"func mr:num n:num">>), Raw(<<"    for i := range n">>), Raw(<<"        return i">>), Raw(<<"    end">>), Raw(<<"end">>), Raw(<<"print (mr 1) (mr 0)">>)>>, sites |-> {"top0", "top1"}],
+     [r |-> "undeclared-sibling-elif", ss |-> <<Raw(<<"if true">>), Raw(<<"    sb := 1">>), Raw(<<"    print sb">>), Raw(<<"else if true">>), Raw(<<"    print sb">>), Raw(<<"end">>)>>, sites |-> Sites],
+     [r |-> "undeclared-sibling-else", ss |-> <<Raw(<<"if false">>), Raw(<<"    sb := 1">>), Raw(<<"    print sb">>), Raw(<<"else">>), Raw(<<"    print sb">>), Raw(<<"end">>)>>, sites |-> Sites],
+     [r |-> "undeclared-sibling-else-after-elif", ss |-> <<Raw(<<"if false">>), Raw(<<"    print 1">>), Raw(<<"else if false">>), Raw(<<"    sb := 1">>), Raw(<<"    print sb">>), Raw(<<"else">>), Raw(<<"    print sb">>), Raw(<<"end">>)>>, sites |-> Sites],
+     [r |-> "undeclared-after-if", ss |-> <<Raw(<<"if true">>), Raw(<<"    sb := 1">>), Raw(<<"    print sb">>), Raw(<<"end">>), Raw(<<"print sb">>)>>, sites |-> Sites],
+     [r |-> "undeclared-after-while", ss |-> <<Raw(<<"while false">>), Raw(<<"    sb := 1">>), Raw(<<"    print sb">>), Raw(<<"end">>), Raw(<<"print sb">>)>>, sites |-> Sites],
+     [r |-> "undeclared-loop-variable-after-for", ss |-> <<Raw(<<"for fv := range 2">>), Raw(<<"    print fv">>), Raw(<<"end">>), Raw(<<"print fv">>)>>, sites |-> Sites],
+     [r |-> "undeclared-body-local-after-for", ss |-> <<Raw(<<"for range 2">>), Raw(<<"    sb := 1">>), Raw(<<"    print sb">>), Raw(<<"end">>), Raw(<<"print sb">>)>>, sites |-> Sites],
+     [r |-> "undeclared-caller-local", ss |-> <<Raw(<<"func usesCaller">>), Raw(<<"    print cl">>), Raw(<<"end">>), Raw(<<"func caller">>), Raw(<<"    cl := 1">>), Raw(<<"    print cl">>), Raw(<<"    usesCaller">>), Raw(<<"end">>), Raw(<<"caller">>)>>, sites |-> {"top0", "top1"}],
+     [r |-> "undeclared-handler-local-in-func", ss |-> <<Raw(<<"func usesHandler">>), Raw(<<"    print hl">>), Raw(<<"end">>), Raw(<<"on down x:num y:num">>), Raw(<<"    hl := x + y">>), Raw(<<"    print hl">>), Raw(<<"    usesHandler">>), Raw(<<"end">>)>>, sites |-> {"top0", "top1"}],
+     [r |-> "stray-after-variadic", ss |-> <<Raw(<<"func vv ns:num... print 1">>), Raw(<<"    print ns">>), Raw(<<"end">>), Raw(<<"vv 1">>)>>, sites |-> {"top0", "top1"}],
+     [r |-> "stray-after-variadic-name", ss |-> <<Raw(<<"func vv ns:num... x">>), Raw(<<"    print ns">>), Raw(<<"end">>), Raw(<<"vv 1">>)>>, sites |-> {"top0", "top1"}],
+     [r |-> "stray-after-variadic-param", ss |-> <<Raw(<<"func vv ns:num... m:num">>), Raw(<<"    print ns m">>), Raw(<<"end">>), Raw(<<"vv 1">>)>>, sites |-> {"top0", "top1"}],
+     [r |-> "handler-variadic", ss |-> <<Raw(<<"on up x:num...">>), Raw(<<"    print x">>), Raw(<<"end">>)>>, sites |-> {"top0", "top1"}],
+     [r |-> "handler-variadic-stray", ss |-> <<Raw(<<"on up x:num y:num... and more">>), Raw(<<"    print x y">>), Raw(<<"end">>)>>, sites |-> {"top0", "top1"}],
+     [r |-> "stray-after-func-header", ss |-> <<Raw(<<"func vv n:num 1">>), Raw(<<"    print n">>), Raw(<<"end">>), Raw(<<"vv 1">>)>>, sites |-> {"top0", "top1"}],
+     [r |-> "stray-after-handler-header", ss |-> <<Raw(<<"on up x:num y:num 1">>), Raw(<<"    print x y">>), Raw(<<"end">>)>>, sites |-> {"top0", "top1"}],
+     [r |-> "string-index-assign-element", ss |-> <<Raw(<<"ws := [\"ab\"]">>), Raw(<<"ws[0][0] = \"x\"">>), Raw(<<"print ws">>)>>, sites |-> Sites],
+     [r |-> "string-index-assign-field", ss |-> <<Raw(<<"mp := {a:\"ab\"}">>), Raw(<<"mp.a[0] = \"x\"">>), Raw(<<"print mp">>)>>, sites |-> Sites],
+     [r |-> "string-index-assign-key", ss |-> <<Raw(<<"mp := {a:\"ab\"}">>), Raw(<<"mp[\"a\"][0] = \"x\"">>), Raw(<<"print mp">>)>>, sites |-> Sites],
+     [r |-> "string-index-assign-nested", ss |-> <<Raw(<<"ws := [[\"ab\"]]">>), Raw(<<"ws[0][0][1] = \"x\"">>), Raw(<<"print ws">>)>>, sites |-> Sites],
+     [r |-> "string-slice-assign", ss |-> <<Raw(<<"ws := [\"ab\"]">>), Raw(<<"ws[0][0:1] = \"x\"">>), Raw(<<"print ws">>)>>, sites |-> Sites] >>
 
 \* ---- stray text after the n-th `end` line: the edit is carried in the case (fields n, extra) and
 \* applied to the rendered text by the check (append extra to the n-th line that consists of `end`)
